@@ -9,7 +9,7 @@ type Rander interface {
 }
 
 // Kinds lists the assembly kinds.
-var Kinds = []string{"ideal", "wt", "wb", "wtwb", "banked", "vm"}
+var Kinds = []string{"ideal", "wt", "wb", "wtwb", "banked", "vm", "dram", "wbdram"}
 
 // GenConfig draws a random small configuration and workload of the given kind.
 // Addresses come from a small set of lines so that caches evict and hit.
@@ -28,6 +28,7 @@ func GenConfig(r Rander, kind string, nops int) *Config {
 	c.TLBSets = []int{1, 2}[r.Intn(2)]
 	c.TLBWays = []int{1, 2, 4}[r.Intn(3)]
 	c.DriverMHz = []uint64{1000, 500, 300, 700}[r.Intn(4)]
+	c.Preset = []string{"DDR4", "DDR5", "HBM2", "HBM3", "GDDR6"}[r.Intn(5)]
 	nlines := r.Range(2, 24)
 	stride := uint64(64)
 	if kind == "vm" && r.Chance(1, 2) {
